@@ -33,6 +33,8 @@ def prepopulate(rng, dest, torrents):
                 content, k = bytes(x ^ 0x0F for x in data), "wrong-same-size"
             elif r < 0.4 and len(data) > 1:
                 content, k = data[:len(data) // 2], "shorter"
+            elif r < 0.5 and len(data) > 1:
+                content, k = bytes(x ^ 0x3C for x in data[:len(data) // 2]), "shorter-unrelated"
             else:
                 continue
             with open(path, "wb") as fd:
